@@ -21,25 +21,23 @@ class SimStepCap(Exception):
 class _FakeSelector:
     def __init__(self, loop):
         self._loop = loop
-        self._thread_grace = 10_000  # ~10 s of wall clock in total
+        self._idle_budget = 3000
 
     def select(self, timeout=None):
         if timeout is None:
             # nothing ready and no timer pending. If the code under test started real threads of its own (an own
             # ThreadPoolExecutor, say), their completion arrives through call_soon_threadsafe: give them wall-clock
-            # time (bounded) before calling it a deadlock. The simulator owns no schedule there - it just must not
-            # report a false deadlock.
-            if threading.active_count() > 1 and self._thread_grace > 0:
-                self._thread_grace -= 1
+            # time before calling it a deadlock - at most ~3 s of *consecutive* idle waiting (idle pool threads stay
+            # alive for ever; the budget is refilled whenever the loop had something to do). The simulator owns no
+            # schedule there - it just must not report a false deadlock.
+            if threading.active_count() > 1 and self._idle_budget > 0:
+                self._idle_budget -= 1
                 _wall.sleep(0.001)
                 return []
             raise SimDeadlock(f"deadlock at virtual time {self._loop.time()}")
         if timeout > 0:
-            if threading.active_count() > 1 and self._thread_grace > 0:
-                # let finished threads hand in their results before virtual time jumps to the next timer
-                self._thread_grace -= 1
-                _wall.sleep(0.0005)
-                return []
+            if threading.active_count() > 1:
+                _wall.sleep(0.0002)  # a moment for finished threads to hand in their results, then time moves on
             self._loop._vtime += timeout
         return []
 
@@ -53,6 +51,7 @@ class SimLoop(asyncio.BaseEventLoop):
         self._vtime = 0.0
         self._selector = _FakeSelector(self)
         self.steps = 0
+        self._spinning = 0
         self.step_cap = step_cap
         self._clock_resolution = 1e-9
 
@@ -69,6 +68,20 @@ class SimLoop(asyncio.BaseEventLoop):
         self.steps += 1
         if self.steps > self.step_cap:
             raise SimStepCap(f"more than {self.step_cap} loop iterations")
+        if self._ready:
+            self._selector._idle_budget = 3000
+            # busy waiting (`while not done: await sleep(0)`) is legal: on a real loop the clock runs while the
+            # task spins. Here time only moves when nothing is ready - so after a long stretch of uninterrupted
+            # spinning with timers pending, the clock jumps to the next timer.
+            self._spinning += 1
+            if self._spinning > 400 and self._scheduled:
+                when = min(handle._when for handle in self._scheduled if not handle._cancelled) if any(
+                    not handle._cancelled for handle in self._scheduled) else None
+                if when is not None and when > self._vtime:
+                    self._vtime = when
+                self._spinning = 0
+        else:
+            self._spinning = 0
         super()._run_once()
 
     def run_in_executor(self, executor, func, *args):
@@ -107,6 +120,13 @@ def run_in_sim(main_coro_factory, step_cap=200_000):
     """
     loop = SimLoop(step_cap=step_cap)
     asyncio.set_event_loop(loop)
+    # code that measures durations with the time module sees the simulated clock (a guard like "took longer than
+    # 1.5 s" is reached by simulated latencies, as it would be by real ones)
+    real_clocks = (_wall.monotonic, _wall.perf_counter, _wall.time)
+    base = (real_clocks[0](), real_clocks[1](), real_clocks[2]())
+    _wall.monotonic = lambda: base[0] + loop.time()
+    _wall.perf_counter = lambda: base[1] + loop.time()
+    _wall.time = lambda: base[2] + loop.time()
     loop.set_exception_handler(lambda _loop, _ctx: None)  # 'exception was never retrieved' of orphans
     outcome = None
     try:
@@ -132,5 +152,6 @@ def run_in_sim(main_coro_factory, step_cap=200_000):
                 pass
         return outcome, loop
     finally:
+        _wall.monotonic, _wall.perf_counter, _wall.time = real_clocks
         asyncio.set_event_loop(None)
         loop.close()
